@@ -53,6 +53,24 @@ def run(chk: Check) -> None:
         scenarios.append({"id": "C09-default", "files": files, "_v": {"program": "*", "layout": "lf", "manifest": "requirements", "queue": ["<default selection>"], "dryRun": False, "workers": 1},
                           "steps": [{"argv": ["{dir}", "--output", "{out}"], "keep_after": True, "keep_events": True}], "_default": True})
 
+    # enabling pairs: K1's fix creates a trigger of K2 (recorded ones; thorough measures them afresh on all seeds)
+    from .. import enabling, seeds as seeds_mod
+
+    pairs = enabling.recorded() if chk.quick else enabling.find_pairs(per_codemod=1000)
+    by_key = {s.key: s for s in seeds_mod.load()}
+    for i, p in enumerate(pairs[: chk.pick(12, 400)]):
+        s = by_key.get(p["seed"])
+        if s is None:
+            continue
+        for q in ([p["k1"], p["k2"]], [p["k2"], p["k1"]]):
+            v = {"program": f"seed:{p['seed'].split('|')[-1]}", "layout": "lf", "manifest": "none", "queue": q, "dryRun": False, "workers": 1}
+            inc = ["{dir}", "--output", "{out}", "--codemod-include"]
+            steps = [{"argv": inc + [",".join(q)], "keep_after": True}]
+            for k, c in enumerate(q):
+                steps.append({"argv": inc + [c], "fresh": k == 0, "keep_after": k == len(q) - 1})
+            scenarios.append({"id": f"C09-en{i}-{q[0].split('/')[-1]}", "files": {"code.py": s.input}, "steps": steps, "_v": v, "_copies": 1})
+    chk.coverage["enabling_pairs"] = len(pairs)
+
     def post(scn, res):
         if scn.get("_default"):
             return
